@@ -17,8 +17,8 @@ func init() {
 			"(R1) no function reachable (static calls, closures, module interface dispatch) from the handler set registered by NewUntrustedMessageHandlers or from any method of UntrustedNode may call a State-mutating method of the trusted *state.State, a chain-mutating BlockRepository method, any TxRepository/ReorgRepository method, SaveTxState, or a client.Handler callback; " +
 			"(R2) every handlers.TxData built in that closure has Trusted and Safe constant false; (R3) every MemPool.AddRequest there passes trusted=false; " +
 			"(R4) the untrusted inv/tx handlers touch the mempool, tracker and tx channel only behind IsReady()==true of the untrusted state; " +
-			"(R5) SetVerified/MarkVerified is called only by the untrusted headers handler, behind: non-empty header list, first header known (Height exists), the height-window test, and a per-header linkage test whose failing edge cannot reach it.",
-		NotDecided: "non-interference as a two-run relation over generated histories; that a verified peer's transactions are eventually vouched; denial of service by volume.",
+			"(R5) SetVerified/MarkVerified is called only by the untrusted headers handler, behind: non-empty header list, first header known (Height exists), the height-window test, and a per-header linkage test whose failing edge cannot reach it and whose running hash starts at the known first header.",
+		NotDecided:  "non-interference as a two-run relation over generated histories; that a verified peer's transactions are eventually vouched; denial of service by volume.",
 		Assumptions: []string{"the handler table is only consumed by UntrustedNode.handleMessage", "function values not created in the closure are not followed"},
 		Tech:        "forbidden-sink reachability over the module call graph rooted at the untrusted handler table, constant provenance of trust flags, guard edge cut-sets",
 		Run:         runC12,
@@ -124,6 +124,8 @@ func relSuffix(rel string) string {
 	}
 	return rel
 }
+
+var extraC12 func(c *Check)
 
 func runC12(c *Check) {
 	rootsF, handleSet := c.untrustedRoots("R1")
@@ -290,6 +292,10 @@ func runC12(c *Check) {
 		}
 	}
 
+	if extraC12 != nil {
+		extraC12(c)
+	}
+
 	// R5: verification gate
 	allowed := map[string]string{"handlers.(*UntrustedHeadersHandler).Handle": "the only place an untrusted peer is verified"}
 	c.whoMayCall("R5", "(*state.UntrustedState).SetVerified", allowed, 1)
@@ -346,7 +352,9 @@ func runC12(c *Check) {
 					continue
 				}
 				for br := 0; br < 2; br++ {
-					if equalEdge(func(x, y ssa.Value) bool { return mentionsFieldNamed(x, "PrevBlock") || mentionsFieldNamed(y, "PrevBlock") }, false)(iff, br) {
+					if equalEdge(func(x, y ssa.Value) bool {
+						return mentionsFieldNamed(x, "PrevBlock") || mentionsFieldNamed(y, "PrevBlock")
+					}, false)(iff, br) {
 						nLink++
 						leaks := reachable(b.Succs[br], s.Instr.Block())
 						c.Decide(!leaks, "R5", key+"#linkage-failure-exits", ifPos(iff), "edge-cutset", nil,
@@ -363,6 +371,8 @@ func runC12(c *Check) {
 		}
 	}
 }
+
+func init() { extraC12 = func(c *Check) { c.ruleFirstLinkChecked("R5") } }
 
 func lastIf(b *ssa.BasicBlock) (*ssa.If, bool) {
 	if n := len(b.Instrs); n > 0 {
